@@ -367,3 +367,65 @@ def schedule_solo(rng, n):
             out.append(rng.choice("swtihpPDeGFtikKx"))
     out += ["t", "i", "E", "t", "i", "D"]
     return ",".join(out)
+
+
+# ---------------------------------------------------------------------------------- scratch-buffer reuse: sequences of complete forms
+TINY = [b"\r", b"\n", b" ", b"x", b"\t", b"\x00"]
+
+
+def tiny_long_string(rng):
+    """long string / long buffer whose content is 0, 1 or 2 bytes from {CR, LF, space, plain byte}, or a short CR/LF-framed body"""
+    nd = rng.choice([1, 1, 2, 3])
+    d = b"`" * nd
+    k = rng.below(8)
+    if k == 0:
+        body = b"" if nd > 1 else rng.choice(TINY)      # `` is an unfinished 2-delimiter string: avoid
+    elif k < 4:
+        body = rng.choice(TINY)
+    elif k < 6:
+        body = rng.choice(TINY) + rng.choice(TINY)
+    else:
+        body = rng.choice([b"\r\n", b"\n", b"\r", b""]) + bytes(rng.choice(b"ab `"[:3]) for _ in range(rng.range(0, 2))) + rng.choice([b"\r\n", b"\n", b"\r", b""])
+    if not body:
+        body = b"\r"
+    return (b"@" if rng.chance(1, 4) else b"") + d + body + d
+
+
+def filler_form(rng):
+    """a complete form that leaves interesting bytes in the scratch buffer (LF / CR / backtick / space at low indices)"""
+    k = rng.below(9)
+    pre = rng.choice([b"a", b"\r", b"\n", b" ", b"ab", b""])
+    if k == 0:
+        return b"`" + pre + rng.choice([b"\n", b"\r\n", b"\r"]) + rng.choice([b"", b"b", b"\n", b" c"]) + b"`" if pre or True else b"`a`"
+    if k == 1:
+        return b'"' + rng.choice([b"a", b"", b"\\r", b"\\n"]) + rng.choice([b"\\n", b"\\r", b"\\n\\n", b"\\r\\n"]) + rng.choice([b"", b"b", b"\\n"]) + b'"'
+    if k == 2:
+        return b"``" + rng.choice([b"\n\n", b"\r\n\r\n", b"`\n", b"\n`\n", b" \n "]) + b"``"
+    if k == 3:
+        return symbol_token(rng)
+    if k == 4:
+        return b"# " + rng.choice([b"c\r", b"\r", b"x"]) + b"\n" + symbol_token(rng)
+    if k == 5:
+        return b"(" + symbol_token(rng) + b" " + string_lit(rng) + b")"
+    if k == 6:
+        return number_token(rng)
+    if k == 7:
+        return b'@"' + rng.choice([b"\\n", b"a\\n", b"\\r\\n"]) + b'"'
+    return long_string(rng)
+
+
+def form_sequence(rng):
+    """list of complete top-level forms (each followed by one separator when joined); later forms tend to be shorter than earlier ones"""
+    forms = []
+    n = rng.range(2, 7)
+    for i in range(n):
+        if rng.chance(1 + i, n + 1):
+            forms.append(tiny_long_string(rng))
+        else:
+            forms.append(filler_form(rng))
+    forms.append(tiny_long_string(rng))
+    return forms
+
+
+def join_forms(forms, sep=b" "):
+    return b"".join(f + sep for f in forms)
